@@ -10,6 +10,7 @@ of the ways listed under HOWS.
 A scenario (JSON-able):
     {"consumer": "callbacks" | "iter", "work": k,
      "cancel_at": rep | None,            # callbacks: observation.cancel() from inside the callback on that body
+     "eb_cancels": bool,                 # callbacks: the errback calls observation.cancel()
      "reps": [[nblocks, tail], ...],     # representation r: nblocks-1 full blocks + tail bytes
      "steps": [["N", rep, obs]           # the resource changes to `rep`; the notification (Observe obs) arrives
                | ["S", rep]              # the resource changes; the notification is lost / still under way
@@ -197,6 +198,8 @@ async def run_scenario(aiocoap, sc):
 
         def app_errback(e):
             seen.append(("eb", _name(e, Error)))
+            if sc.get("eb_cancels"):
+                req.observation.cancel()
 
         req.observation.register_callback(trace_callback, _suppress_deprecation=True)
         req.observation.register_errback(trace_errback, _suppress_deprecation=True)
@@ -584,6 +587,15 @@ def boundary_scenarios():
         out.append({"consumer": "callbacks", "work": 0, "reps": reps, "hows": [], "cancel_at": rep,
                     "steps": [["serve"], ["N", 1, 2], ["serve"], ["N", 2, 3], ["serve"], ["N", 3, 4], ["serve"],
                               ["F", 132, None]]})
+    # the errback cancels the observation it is being told the end of: final response, transport failure, network error
+    # under a fetch, a given-up request
+    for steps, hows in (([["serve"], ["N", 1, 2], ["serve"], ["F", 132, None]], []),
+                        ([["serve"], ["N", 1, 2], ["serve"], ["X", 2]], []),
+                        ([["serve"], ["N", 1, 2], ["serve"], ["N", 2, 3], ["serve"]], ["ok", "neterr"]),
+                        ([["serve"], ["N", 1, 2], ["F", 160, 9], ["serve"]], []),
+                        ([["RC"], ["serve"]], [])):
+        out.append({"consumer": "callbacks", "work": 0, "reps": reps, "hows": list(hows), "eb_cancels": True,
+                    "steps": steps})
     # the application gives the request up while the body of the response itself is being fetched / before
     for cons, work in consumers:
         out.append({"consumer": cons, "work": work, "reps": reps, "hows": [],
@@ -638,4 +650,6 @@ def random_scenario(rng):
     sc = {"consumer": cons, "work": work, "reps": reps, "hows": hows, "steps": steps}
     if cons == "callbacks" and rng.random() < 0.15:
         sc["cancel_at"] = rng.randrange(1, nrep)
+    if cons == "callbacks" and rng.random() < 0.3:
+        sc["eb_cancels"] = True
     return sc
